@@ -26,7 +26,12 @@ parsed, GetModule, augmenting modules parsed, GetModule again - must equal the f
 "implicit-case-rpc-only" (shorthand choice members only inside rpc / action input and output, chains starting below the
 case FixChoice inserts there), "submodule-prefixes" (augments written in a submodule whose own imports / belongs-to prefix differ from its module's:
 only the submodule imports the target, module and submodule bind one prefix to different modules, belongs-to prefix
-unlike the module's own).
+unlike the module's own), "nothing-to-graft" (augments that define no node: `augment "p";`, `augment "p" { }`, a body of
+only description / reference / status / when, only `uses` of groupings without nodes (empty, nested-empty, holding only an
+unused grouping) - for the model all of them are augments with an EMPTY body - on targets that are missing, leaves,
+leaf-lists, bad steps under an rpc, typos below / leaves of what another augment adds, below an augment that itself fails
+(all must be reported, at exactly their statements), or that exist / are created by another augment (must be clean and
+change nothing); 1-3 of them per set among ordinary augments, alone in their module or not, in every written position).
 Every clean implementation result must also have an empty `treeviol`, no entry with augments left (`naugments`) and
 (iv) every node each augment defines below its target exactly once, attributed to the augmenting module's namespace
 (an oracle on the implementation's dump alone); schemas built with an error variant (missing target, leaf target,
@@ -258,6 +263,158 @@ class AGen:
         return mods, meta
 
 
+# ------------------------------------------------------------------ augments that graft nothing
+# An augment statement may define no node at all: no substatements (`augment "p";`, `augment "p" { }`), only statements
+# that are not schema nodes (description, reference, status, when), or only `uses` of groupings that define no node.
+# The abstract source the model reads has an EMPTY body for all of them (m["augdeco"]: path -> written form; the
+# model's a_dir = []); the text the implementation reads is rendered by render_module below.  Whether such an augment
+# can be applied is decided by its PATH alone (C07_T3_not_applicable / C07_T3_applicability_ignores_body): a target
+# that does not exist or cannot have children is reported exactly like that of an augment full of nodes.
+DECO_STMTS = {
+    "description": ['description "nothing yet";'],
+    "reference": ['reference "RFC 0000";'],
+    "status": ["status current;"],
+    "when": ['when "1 = 1";'],
+    "description+reference": ['description "placeholder";', 'reference "RFC 0000";'],
+    "description+status+when": ['description "placeholder";', "status deprecated;", 'when "../x = 1";'],
+}
+NOTHING_DECOS = [None, "semicolon", "description", "reference", "status", "when", "description+reference", "description+status+when"]
+NOTHING_BODIES = ["none", "uses-empty", "uses-empty-twice", "uses-nested-empty", "uses-grouping-of-groupings"]
+NOTHING_BAD = ["missing", "leaf", "leaf-list", "rpc-bad-step", "below-augment-typo", "below-failed-augment", "leaf-added-by-augment"]
+NOTHING_GOOD = ["exists", "created-by-augment"]
+
+
+def render_module(m):
+    """sg.render_module, plus the written forms of m["augdeco"] (a form that needs an empty body falls back to braces)"""
+    deco = m.get("augdeco")
+    if not deco:
+        return sg.render_module(m)
+    s = sg.render_module(dict(m, augments=[], deviations=[]))[:-2]
+    for path, body in m["augments"]:
+        form = deco.get(path)
+        if form == "semicolon" and not body:
+            s += "  augment %s;\n" % sg.q(path)
+            continue
+        s += "  augment %s {\n%s%s  }\n" % (sg.q(path), "".join("    %s\n" % x for x in DECO_STMTS.get(form, [])),
+                                           "".join(sg.render_node(c, "    ") for c in body))
+    for path, dvs in m["deviations"]:
+        s += "  deviation %s {\n%s  }\n" % (sg.q(path), "".join(sg.render_deviate(d) for d in dvs))
+    return s + "}\n"
+
+
+def go_case(schema, opts="-", ops=None, order=None):
+    """sg.go_case with this file's renderer"""
+    mods = schema if order is None else [next(m for m in schema if m["name"] == n) for n in order]
+    ops = ops or ",".join(["L%d" % i for i in range(len(mods))] + ["P"])
+    toks = ["process", opts, ops, str(len(mods))]
+    for m in mods:
+        toks += [sg.hx(m["name"] + ".yang"), sg.hx(render_module(m))]
+    return " ".join(toks)
+
+
+def nothing_body(g, m, how):
+    """a statement list that defines no node, written with groupings that m itself declares"""
+    r = g.r
+    if how == "none":
+        return []
+    g.uid += 1
+    ge = "ge%d" % g.uid
+    ref = lambda n: r.choice([n, m["prefix"] + ":" + n])
+    m["body"].append(("grouping", 2000 + g.uid, ge, []))
+    if how == "uses-empty":
+        return [("uses", ref(ge))]
+    if how == "uses-empty-twice":
+        return [("uses", ref(ge)), ("uses", ref(ge))]
+    g.uid += 1
+    gw = "gw%d" % g.uid
+    if how == "uses-nested-empty":
+        m["body"].append(("grouping", 2000 + g.uid, gw, [("uses", ref(ge))]))
+    else:   # a grouping that only declares another grouping (never used): still no node
+        m["body"].append(("grouping", 2000 + g.uid, gw, [("grouping", 3000 + g.uid, "gi%d" % g.uid, [leaf(g.fresh("gl"))])]))
+    return [("uses", ref(gw))]
+
+
+def nothing_schema(g, first=None):
+    """one module set with 1-3 augments that graft nothing, each on a target of a class of NOTHING_BAD / NOTHING_GOOD,
+    among 0-2 ordinary augments; first = (deco, body kind, target class) of the first one (the sweep), the others random"""
+    r = g.r
+    mods, owners = g.modules(r.randint(1, 3))
+    t = mods[0]
+    t["body"] += [("leaflist", "lls", "string", None, [], None, None),
+                  cont("c2", [("leaflist", "ll2", "int8", None, [], None, None), leaf("l3")])]
+    meta = dict(kinds=[], chains=[], errors=[], ic=False, bad_paths=[], nothing=[])
+    plain = [["c"], ["c", "cc"], ["li"], ["n"], ["r", "input"], ["r2", "output"], ["cu", "gc"], ["sc"], ["options"], ["u1", "eo"]]
+
+    def add(owner, steps, body, deco=None, bad=False):
+        path = path_of(owner[1], steps, r.choice(["full", "full", "first"]))
+        owner[0]["augments"].append((path, body))
+        if deco:
+            owner[0].setdefault("augdeco", {})[path] = deco
+        if bad:
+            meta["bad_paths"].append(path)
+        return path
+
+    specs = [first] if first else []
+    while len(specs) < (r.choice([1, 1, 2, 3]) if first else r.choice([1, 2, 2, 3])):
+        specs.append((r.choice(NOTHING_DECOS), r.choice(NOTHING_BODIES), r.choice(NOTHING_BAD + NOTHING_GOOD + NOTHING_GOOD)))
+    one_owner = r.choice(owners) if r.random() < 0.4 else None      # all of them in one module: it has nothing else pending
+    for deco, how, cls in specs:
+        owner = one_owner or r.choice(owners)
+        if deco == "semicolon":
+            how = "none"
+        body = nothing_body(g, owner[0], how)
+        bad = cls in NOTHING_BAD
+        if cls == "missing":
+            steps = list(r.choice(ERR_TARGETS["missing"] + [["cu", "gc", "nope"], ["r2", "input", "nope"], ["sc", "nope"]]))
+        elif cls == "leaf":
+            steps = list(r.choice(ERR_TARGETS["leaf"] + [["name"], ["cu", "g2"], ["sc", "sl"]]))
+        elif cls == "leaf-list":
+            steps = list(r.choice([["lls"], ["c2", "ll2"]]))
+        elif cls == "rpc-bad-step":
+            steps = list(r.choice(ERR_TARGETS["rpc-bad-step"]))
+        elif cls == "exists":
+            steps = list(r.choice(TARGETS[r.choice(sorted(TARGETS))]))
+        else:
+            # relative to what another (ordinary) augment adds
+            o2 = r.choice(owners)
+            nm, lf_ = g.fresh("x"), g.fresh("al")
+            base = list(r.choice(plain)) if cls != "below-failed-augment" else list(r.choice([["nope2"], ["c", "nope2"], ["c", "l"]]))
+            add(o2, base, [cont(nm, [leaf(g.fresh("al"))]), leaf(lf_)], bad=(cls == "below-failed-augment"))
+            steps = base + {"created-by-augment": [nm], "below-augment-typo": [nm, "nope"], "below-failed-augment": [nm],
+                            "leaf-added-by-augment": [lf_]}[cls]
+        add(owner, steps, body, deco, bad)
+        meta["kinds"].append("nothing-to-graft:" + cls)
+        meta["nothing"].append([deco or "braces", how, cls])
+        if bad:
+            meta["errors"].append("nothing-to-graft:" + cls)
+        meta["chains"].append(1)
+    for _ in range(r.choice([0, 1, 1, 2])):
+        o = r.choice(owners)
+        add(o, list(r.choice(plain)), [leaf(g.fresh("al")), cont(g.fresh("x"), [leaf(g.fresh("al"))])],
+            deco=r.choice([None, None, "description", "when"]))
+    for m in mods:
+        r.shuffle(m["augments"])
+    if not meta["bad_paths"]:
+        del meta["bad_paths"]
+    return mods, meta
+
+
+def nothing_cases(rnd, tier):
+    out = []
+    # every written form on every class of bad target (the statement must be reported, whatever it holds) ...
+    decos = [(d, "none") for d in NOTHING_DECOS] + [(None, b) for b in NOTHING_BODIES[1:]] + [("description", "uses-empty")]
+    for rep in range(1 if tier == "quick" else 6):
+        for i, (deco, how) in enumerate(decos):
+            for k, cls in enumerate(NOTHING_BAD):
+                if tier == "quick" and (i + k) % 2 and cls not in ("missing", "leaf"):
+                    continue
+                out.append(nothing_schema(AGen(rnd), (deco, how, cls)) + ("nothing-to-graft",))
+    # ... and random mixtures, half of them on good targets (must be clean and change nothing)
+    for _ in range(40 if tier == "quick" else 600):
+        out.append(nothing_schema(AGen(rnd)) + ("nothing-to-graft",))
+    return out
+
+
 # ------------------------------------------------------------------ helpers
 def permute_augments(schema, rnd):
     out = []
@@ -478,7 +635,7 @@ def applied_defects(schema, j):
 
 def augment_lines(m):
     """1-based line of every augment statement in the rendered text of m, in written order"""
-    return [i + 1 for i, l in enumerate(sg.render_module(m).split("\n")) if l.startswith("  augment ")]
+    return [i + 1 for i, l in enumerate(render_module(m).split("\n")) if l.startswith("  augment ")]
 
 
 def expected_reports(schema, bad_paths):
@@ -526,7 +683,7 @@ def rev_text(kind, name, prefix, ns, revs, augments, belongs=None, includes=(), 
 def revision_cases(rnd, n):
     """two revisions of one module / submodule loaded side by side: (label, [(file, text)], [(file, line, steps, leaf, ns, good)])"""
     t, ts = target_module()
-    base = [("t.yang", sg.render_module(t)), ("ts.yang", sg.render_module(ts))]
+    base = [("t.yang", render_module(t)), ("ts.yang", render_module(ts))]
     out = []
     good_targets = [["c"], ["li"], ["n"], ["r", "input"], ["cu", "gc"], ["u1", "eo"], ["options"]]
     bad_targets = [["nowhere"], ["c", "l"], ["c", "nope"], ["name"]]
@@ -674,7 +831,7 @@ def late_parse_line(schema):
     ops = ["L%d" % i for i in range(len(early))] + [g] + ["L%d" % i for i in range(len(early), len(mods))] + [g]
     toks = ["c18proc", "-", ",".join(ops), str(len(mods))]
     for m in mods:
-        toks += [sg.hx(m["name"] + ".yang"), sg.hx(sg.render_module(m))]
+        toks += [sg.hx(m["name"] + ".yang"), sg.hx(render_module(m))]
     return " ".join(toks)
 
 
@@ -908,6 +1065,9 @@ def gen(tier, seed):
     for _ in range(150 if tier == "quick" else 1500):
         s = sg.random_schema(rnd, p_aug=1.0, p_dev=0.0, n_modules=rnd.randint(2, 4))
         out.append((s, dict(kinds=["random"], chains=[], errors=[], ic=False), "random_schema"))
+    # augments that graft nothing (no substatements, only description / reference / status / when, only uses of groupings
+    # without nodes) on targets that are missing, leaves, leaf-lists, bad rpc steps, or exist / are created by another augment
+    out += nothing_cases(rnd, tier)
     return rnd, out
 
 
@@ -948,7 +1108,7 @@ def run(res, tier, seed, proof):
         allv.append(vs)
         for vname, sch, inv in vs:
             for o in orders_of(sch, rnd, NGO_ORDERS):
-                go_lines.append(sg.go_case(sch, order=o))
+                go_lines.append(go_case(sch, order=o))
                 idx.append(("go", si, vname, o))
             for o in model_orders(sch, rnd, NML_ORDERS if vname == "written" else 1):
                 ml_lines.append(sg.model_case(sch, order=o))
@@ -957,11 +1117,11 @@ def run(res, tier, seed, proof):
     auto_lines, auto_idx = [], []
     for si, (schema, meta, origin) in enumerate(items):
         sch = with_top(schema)
-        auto_lines.append(sg.go_case(sch))
+        auto_lines.append(go_case(sch))
         auto_idx.append((si, "explicit", None))
         for how in ("all", "augmenters", "random"):
             ops, names = autoload_ops(sch, rnd, how)
-            auto_lines.append(sg.go_case(sch, ops=ops))
+            auto_lines.append(go_case(sch, ops=ops))
             auto_idx.append((si, how, names))
         ml_lines.append(sg.model_case(sch))
         idx.append(("mlauto", si, "auto", None))
@@ -1204,7 +1364,7 @@ def run(res, tier, seed, proof):
              "the model at the implementation's visiting order, plus %d further order arguments on the model; compared: canonical "
              "forest text (children sorted) or err; non-trivial = at least two augments" % (NGO_ORDERS, NML_ORDERS - 1),
         exhaustive=False, mismatches=hist["tie_mismatch"], distribution=hist, violation_classes=reported,
-        samples=[sg.render_module(m)[:600] for m in s0[:3]],
+        samples=[render_module(m)[:600] for m in s0[:3]],
         sample_observations=[per[0]["go"][0][2][:400], per[0]["ml"][0][2][:400]],
     )
     assumptions = [
@@ -1212,6 +1372,9 @@ def run(res, tier, seed, proof):
         "renaming the augmenting modules and on the model by the explicit order argument",
         "forest equivalence of the theorems ignores the order of children and the presence of an EMPTY rpc input/output; the "
         "correspondence compares input/output presence exactly",
+        "augments that define no node are, for the model, augments with an empty body whatever their written form (no "
+        "substatements, description / reference / status / when only, uses of groupings without nodes); when / if-feature / "
+        "status / reference themselves are not modelled (they never decide whether an augment is applied or reported)",
         "deviations occur only as deviate not-supported of a conflicting augment's target or ancestor (family "
         "conflict-then-removed); their own semantics is C08; uses-augment and refine are not modelled",
     ]
@@ -1233,8 +1396,8 @@ def replay(rep, res):
     if rep.get("what_kind") == "wrong-reports":
         for m in rep["schema"]:
             if m["augments"]:
-                print(sg.render_module(m))
-        st, txt, j = sg.canon_go(lib.run_go([sg.go_case(rep["schema"], order=rep.get("order"))])[0])
+                print(render_module(m))
+        st, txt, j = sg.canon_go(lib.run_go([go_case(rep["schema"], order=rep.get("order"))])[0])
         want = expected_reports(rep["schema"], set(rep["bad_paths"]))
         got = reported_positions(j) if j else set()
         print("reported:", sorted(got), (j or {}).get("runs", [{}])[-1].get("errors"))
@@ -1246,10 +1409,10 @@ def replay(rep, res):
             continue
         print("---- modules (%s)" % label)
         for m in schema:
-            print(sg.render_module(m))
+            print(render_module(m))
         names = [m["name"] for m in schema]
         for o in (names, list(reversed(names))):
-            st, txt, j = sg.canon_go(lib.run_go([sg.go_case(schema, order=o)])[0])
+            st, txt, j = sg.canon_go(lib.run_go([go_case(schema, order=o)])[0])
             outs.add(st)
             print("impl  (%s) load order %s: %s %s" % (label, o, st, (j or {}).get("runs", [{}])[-1].get("errors")))
             if st == "ok":
@@ -1264,7 +1427,7 @@ def replay(rep, res):
     if kind == "late-parse":
         cwd = tempfile.mkdtemp(prefix="c07cwd")
         try:
-            a = sg.canon_go(lib.run_go([sg.go_case(rep["schema"])], cwd=cwd)[0])
+            a = sg.canon_go(lib.run_go([go_case(rep["schema"])], cwd=cwd)[0])
             b = sg.canon_go(lib.run_go([late_parse_line(rep["schema"])], cwd=cwd)[0])
         finally:
             shutil.rmtree(cwd, ignore_errors=True)
@@ -1274,8 +1437,8 @@ def replay(rep, res):
     if kind == "autoload":
         cwd = tempfile.mkdtemp(prefix="c07cwd")
         try:
-            a = sg.canon_go(lib.run_go([sg.go_case(rep["schema"])], cwd=cwd)[0])
-            b = sg.canon_go(lib.run_go([sg.go_case(rep["schema"], ops=rep["ops"])], cwd=cwd)[0])
+            a = sg.canon_go(lib.run_go([go_case(rep["schema"])], cwd=cwd)[0])
+            b = sg.canon_go(lib.run_go([go_case(rep["schema"], ops=rep["ops"])], cwd=cwd)[0])
         finally:
             shutil.rmtree(cwd, ignore_errors=True)
         print("explicit   :", a[0], ((a[2] or {}).get("runs") or [{}])[-1].get("errors"))
@@ -1286,10 +1449,10 @@ def replay(rep, res):
     if kind == "valid-rejected":
         return 0 if outs == {"ok"} else 1
     if kind == "clean-defect":
-        st, txt, j = sg.canon_go(lib.run_go([sg.go_case(rep["schema"], order=rep.get("order"))])[0])
+        st, txt, j = sg.canon_go(lib.run_go([go_case(rep["schema"], order=rep.get("order"))])[0])
         return 1 if st != "ok" or go_clean_defects(j) + applied_defects(rep["schema"], j) else 0
     if kind == "tie":
-        st, txt, j = sg.canon_go(lib.run_go([sg.go_case(rep["schema"], order=rep.get("order"))])[0])
+        st, txt, j = sg.canon_go(lib.run_go([go_case(rep["schema"], order=rep.get("order"))])[0])
         ml = lib.run_ml([sg.model_case(rep["schema"])])[0]
         return 0 if summarize(st, txt) == (ml if ml.startswith("ok ") else ml.split(" ")[0]) else 1
     return 1 if len(outs) > 1 else 0
